@@ -279,3 +279,54 @@ def check_imputer_vector_width(ctx, rule='A21w'):
                'ok' if not bad else f'L{bad[0].lineno}: `{short(parents.get(id(bad[0])), 70)}` uses the whole vector at '
                f'the encoder\'s width against a table that may be narrower')
     return n
+
+
+# ---------------------------------------------------------------------- A6p: the decoded pair stays together
+def check_decode_pair(ctx, rule='A6p', module_prefix='adsg_core.optimization.assign_enc'):
+    """`_decode(vector, existence)` returns the pair (normalised vector, matrix): inactive variables marked, indices
+    clamped.  A function that hands on the matrix of such a pair hands on the vector of the *same* pair - returning
+    the candidate that went into the decode together with the matrix that came out of it gives a corrected vector
+    that does not reproduce itself."""
+    from ..cfg import build_rd
+    n = 0
+    for fn in ctx.prog.all_functions():
+        if not fn.module.name.startswith(module_prefix) or isinstance(fn.node, ast.Lambda):
+            continue
+        decode_names = set()
+        unpacks = []     # (stmt, vector name, matrix name)
+        for s in walk_fn(fn):
+            if isinstance(s, ast.Assign) and isinstance(s.value, ast.Call) and call_name(s.value) in ('_decode', '_decode_func'):
+                t = s.targets[0]
+                if isinstance(t, ast.Name):
+                    decode_names.add(t.id)
+                elif isinstance(t, ast.Tuple) and len(t.elts) == 2 and all(isinstance(e, ast.Name) for e in t.elts):
+                    unpacks.append((s, t.elts[0].id, t.elts[1].id))
+        for s in walk_fn(fn):
+            if isinstance(s, ast.Assign) and isinstance(s.value, ast.Name) and s.value.id in decode_names and \
+                    isinstance(s.targets[0], ast.Tuple) and len(s.targets[0].elts) == 2 and \
+                    all(isinstance(e, ast.Name) for e in s.targets[0].elts):
+                unpacks.append((s, s.targets[0].elts[0].id, s.targets[0].elts[1].id))
+        if not unpacks:
+            continue
+        cfg = build_cfg(fn)
+        rd = build_rd(fn)
+        un_nodes = {id(cfg.node_of(u[0])): u for u in unpacks if cfg.node_of(u[0]) is not None}
+        for nd in cfg.nodes:
+            if not (nd.kind == 'stmt' and isinstance(nd.ast, ast.Return) and isinstance(nd.ast.value, ast.Tuple) and
+                    len(nd.ast.value.elts) >= 2 and all(isinstance(e, ast.Name) for e in nd.ast.value.elts[:2])):
+                continue
+            v, m = nd.ast.value.elts[0].id, nd.ast.value.elts[1].id
+            mdefs = [d for d in rd.defs_of(m, nd) if id(d) in un_nodes and un_nodes[id(d)][2] == m]
+            if not mdefs or len(mdefs) != len(list(rd.defs_of(m, nd))):
+                continue            # the matrix does not (only) come out of a decode
+            vdefs = list(rd.defs_of(v, nd))
+            ok = bool(vdefs) and all(id(d) in un_nodes and un_nodes[id(d)][1] == v for d in vdefs) and \
+                {id(d) for d in vdefs} == {id(d) for d in mdefs}
+            n += 1
+            ctx.touch(fn)
+            ctx.ob(rule, fkey(fn, rule, f'return:{v},{m}'), ok, f'{fn.module.relpath}:{nd.lineno}',
+                   f'the vector returned with a decoded matrix is the normalised vector of the same decode',
+                   f'`{v}` and `{m}` come from {short(mdefs[0].ast, 50)}' if ok else
+                   f'`{m}` comes from {short(mdefs[0].ast, 50)} but `{v}` is defined by ' +
+                   '; '.join(short(d.ast, 50) if d.ast is not None else d.kind for d in vdefs[:2]))
+    return n
